@@ -32,6 +32,9 @@ BOUNDED_RULE = (
 )
 
 LETTERS = ["ab", "cd", "ef", "gh", "ij", "kl"]
+# one character per column that some libraries take for a line break (str.splitlines does) but that is an ordinary
+# character of a word for textwrap and for the table: part of the text of its column
+EXOTIC = ["\x1c", "\x1d", "\x1e", "\x85", "\u2028", "\u2029"]
 TAGS = ["b", "info", "comment"]
 STYLES = ["ascii", "solid", "borderless", "compact"]
 _TAG_RE = re.compile(r"</?(?:b|info|comment)>")
@@ -130,7 +133,7 @@ _HORI = {"ascii": "-", "solid": u"─"}
 def _col_of(ch):
     lo = ch.lower()
     for c, pair in enumerate(LETTERS):
-        if lo in pair:
+        if lo in pair or ch == EXOTIC[c]:
             return c
     return None
 
@@ -146,6 +149,16 @@ def _spans(line, ncols):
             raise Problem("text", "unexpected character %r in row line %r" % (ch, line))
         sp[c] = (i, i) if sp[c] is None else (sp[c][0], i)
     return sp
+
+
+_EXOTIC_DROP = dict((ord(ch), None) for ch in EXOTIC)
+
+
+def _plain_chars(text):
+    """the letters of a text for the reading-order clause: blanks aside, and the exotic separator characters aside too -
+    textwrap (standard library) drops a piece of a cut word that consists of such a character only, which is not the
+    table's doing; where these characters stand still counts for the geometry clauses"""
+    return text.replace(" ", "").translate(_EXOTIC_DROP)
 
 
 def _chars(line, c):
@@ -272,12 +285,12 @@ def analyse(case, out):
         starts.append(t)
         height = 1
         for c in range(n):
-            want = "".join(visible(cells[c]).split())
+            want = _plain_chars(visible(cells[c]))
             acc, k = "", 0
             while len(acc) < len(want):
                 if t + k >= len(row_text):
                     raise Problem("text", "cell (%d,%d): output ends after %r, expected %r" % (r, c, acc[-30:], want[:60]))
-                acc += _chars(row_text[t + k], c)
+                acc += _plain_chars(_chars(row_text[t + k], c))
                 k += 1
             if acc != want:
                 i = 0
@@ -287,8 +300,8 @@ def analyse(case, out):
                     r, c, i, acc[max(0, i - 5): i + 15], want[max(0, i - 5): i + 15]))
             height = max(height, k)
         for c in range(n):
-            want = "".join(visible(cells[c]).split())
-            got = "".join(_chars(row_text[t + k], c) for k in range(height) if t + k < len(row_text))
+            want = _plain_chars(visible(cells[c]))
+            got = _plain_chars("".join(_chars(row_text[t + k], c) for k in range(height) if t + k < len(row_text)))
             if got != want:
                 raise Problem("text", "row %d column %d: extra text %r below the cell" % (r, c, got[len(want):][:30]))
         t += height
@@ -343,7 +356,11 @@ def evaluate(case):
 # ----------------------------------------------------------------------------- enumerators
 def _word(rng, c, upper, n):
     pair = LETTERS[c].upper() if upper else LETTERS[c]
-    return "".join(rng.choice(pair) for _ in range(n))
+    w = "".join(rng.choice(pair) for _ in range(n))
+    if n >= 3 and rng.random() < 0.04:
+        k = rng.randrange(1, n - 1)
+        w = w[:k] + EXOTIC[c] + w[k + 1:]
+    return w
 
 
 def _cell(rng, c, upper, tags):
